@@ -211,3 +211,57 @@ for _cls in ['data.TexCmd'] + ENVS + ['data.TexEnv', 'data.TexExpr']:
 @REG.specfun('iscmd')
 def _iscmd(ctx, obj):
     return VB('data.TexCmd' in ctx.engine.repo.mro(obj.a['cls']))
+
+
+# ---------------------------------------------------------------------- head unfolding of the folds at args[0] / args[1:]
+def head_unfold(eng, st, b, pre):
+    xs = st.heap[b['self'].a['ref']]['items'].z
+    from .tree import group_shape
+    import contracts.tree as T
+    head, tail = xs[0], SubSeq(xs, 1, Length(xs) - 1)
+    nonempty = Length(xs) >= 1
+    bare_h = Or(isbare(head), kind(head) == kind_of('data.TexCmd'))
+    st.fact(Implies(nonempty, And(SL(xs) == Concat(ser(head), SL(tail)),
+                                  NW(SL(xs)) == Concat(NW(ser(head)), NW(SL(tail))),
+                                  TAg(xs) == And(tight(head), Not(gapped(head)), Not(bare_h), TAg(tail)),
+                                  BARE(xs) == Or(bare_h, BARE(tail)))))
+    for fn in HEAD_HOOKS:
+        fn(st, xs, head, tail, nonempty)
+    sl_facts(st, tail)
+    group_shape(eng, st, head)
+
+
+HEAD_HOOKS = []
+for _c in REG.contracts['data.TexArgs.__getitem__']:
+    _c.hooks.append(head_unfold)
+
+
+def concat_facts(st, old, add, new):
+    """fold instances for new == old ++ add"""
+    st.fact(SL(new) == Concat(SL(old), SL(add)))
+    st.fact(NW(SL(new)) == Concat(NW(SL(old)), NW(SL(add))))
+    st.fact(TL(new) == And(TL(old), TL(add)))
+    st.fact(Length(new) == Length(old) + Length(add))
+    sl_facts(st, old)
+    sl_facts(st, add)
+    for fn in CONCAT_HOOKS:
+        fn(st, old, add, new)
+
+
+CONCAT_HOOKS = []
+
+
+def _append_hook(eng, st, b, pre):
+    from .tree import as_eseq
+    obj = b['self']
+    old = pre.heap[obj.a['ref']]['contents'].z
+    new = st.heap[obj.a['ref']]['contents'].z
+    cache = st.ghost.get('$eseq', {})
+    add = cache.get(id(b['exprs']))
+    if add is None:
+        add = as_eseq(b['exprs'], st)
+    concat_facts(st, old, add.z, new)
+
+
+for _c in REG.contracts['data.TexExpr.append']:
+    _c.hooks.append(_append_hook)
